@@ -168,6 +168,8 @@ class MemoryPoolList {
   }
 
   Pool* addPool(Allocator* allocator) {
+    if (count_ >= maxPools)  // the preallocated table can be larger
+      return nullptr;
     if (count_ == capacity_ && !increaseCapacity(allocator))
       return nullptr;
     auto pool = &pools_[count_++];
